@@ -111,17 +111,9 @@ impl<K: Hash + Ord + PartialEq + Clone, V: Clone> CompactOrderedHashMap<K, V> {
                     v4: v4.clone(),
                 }
             }
-            _ => {
-                let indexed = entries
-                    .into_iter()
-                    .enumerate()
-                    .map(|(index, (k, v))| {
-                        let indexed_entry = IndexedEntry { v, index };
-                        (k, indexed_entry)
-                    })
-                    .collect::<HashMap<_, _>>();
-                S::NEntries(indexed)
-            }
+            // more than four entries, or repeated keys: insert one by one so that every key
+            // keeps the index of its first occurrence and indices stay contiguous
+            _ => entries.into_iter().collect(),
         }
     }
 
@@ -380,7 +372,7 @@ impl<K: Hash + Ord + PartialEq + Clone, V: Clone> CompactOrderedHashMap<K, V> {
                 }
             }
             CompactOrderedHashMap::NEntries(map) => {
-                let index = map.get(&k).map(|e| e.index).unwrap_or(map.len() + 1);
+                let index = map.get(&k).map(|e| e.index).unwrap_or(map.len());
                 let result = map.insert(k, IndexedEntry::new(v, index));
                 result.map(|r| r.v)
             }
